@@ -83,6 +83,8 @@ def lst(node, f):
 def wl_match(node, s):
     if node is None:
         return True
+    if 'never' in node:
+        return False                 # `[!]`: the nothing-matcher as a component
     if 'w' in node:
         return word_match(node['w'], s)
     return lst(node, lambda n: wl_match(n, s))
@@ -92,6 +94,8 @@ def ospec_match(node, obj):
     """obj = [type, id, gen]"""
     if node is None:
         return True
+    if 'never' in node:
+        return False
     if 'type' in node:
         return obj[0] is not None and word_match(node['type'], obj[0])
     if 'id' in node:
@@ -101,6 +105,8 @@ def ospec_match(node, obj):
 
 def val_match(node, a):
     k = a['kind']
+    if 'never' in node:
+        return False
     if 'int' in node:
         if k == 'int':
             return a['value'] == node['int']
@@ -153,6 +159,8 @@ def item_const_true(node):
     name_any = n is None or n.get('w') == '*'
     v = node['value']
     val_any = v is None or v.get('word') == '*'
+    if v is not None and 'never' in v:
+        return False
     return name_any and val_any
 
 
